@@ -734,6 +734,28 @@ func (h *concHarness) Run(t *testing.T, ci any) *Outcome {
 			shared2 = true
 		}
 	}
+	// reach probes: which kinds of overlap did this run actually produce
+	for i, a := range events {
+		for _, b := range events[i+1:] {
+			if a.client == b.client || a.in.name != b.in.name || !(a.call < b.ret && b.call < a.ret) {
+				continue
+			}
+			aw, bw := a.in.k == "add" || a.in.k == "rm", b.in.k == "add" || b.in.k == "rm"
+			switch {
+			case aw && bw:
+				o.stat("probe_two_writes_overlap_on_one_graph", 1)
+			case aw != bw && (a.in.k == "lookup" || b.in.k == "lookup"):
+				o.stat("probe_lookup_overlaps_write_on_one_graph", 1)
+			case aw != bw:
+				o.stat("probe_read_overlaps_write_on_one_graph", 1)
+			case (a.in.k == "new" || a.in.k == "del") && (b.in.k == "new" || b.in.k == "del"):
+				o.stat("probe_graph_create_drop_overlap_on_one_name", 1)
+			}
+		}
+	}
+	if res.LockWaits > 0 {
+		o.stat("probe_lock_waits", int64(res.LockWaits))
+	}
 	o.NonTrivial = res.Decisions > 0 && shared2 && writes
 	o.Hash = hashStr(fmt.Sprintf("%s|%x", renderHistory(events), res.SchedHash))
 	if o.NonTrivial {
